@@ -1,1 +1,225 @@
-// placeholder
+// C17: string comparison and concatenation are resumable instructions (one byte per
+// step()).  Instead of unrolling the loop, each harness takes ONE step from an arbitrary
+// valid state -- entry (operands on the stack, index 0) or in flight (operands parked in
+// the thread, index i under the invariant "the first i bytes are equal" / "builder holds
+// a[..i1] ++ b[..i2]") -- and shows: the instruction either finishes with the reference
+// answer on the whole strings, or rewinds pc, advances by one byte and re-establishes the
+// invariant.  Induction over steps then covers every slicing for all strings of <= 3 bytes.
+
+pub(super) fn lex_cmp(a: [u8; 3], la: usize, b: [u8; 3], lb: usize) -> i8 {
+    let mut k = 0;
+    while k < 3 {
+        if k >= la || k >= lb {
+            break;
+        }
+        if a[k] != b[k] {
+            return if a[k] < b[k] { -1 } else { 1 };
+        }
+        k += 1;
+    }
+    if la < lb { -1 } else if la > lb { 1 } else { 0 }
+}
+
+pub(super) fn prefix_equal(a: [u8; 3], b: [u8; 3], i: usize) -> bool {
+    (i < 1 || a[0] == b[0]) && (i < 2 || a[1] == b[1]) && (i < 3 || a[2] == b[2])
+}
+
+// kind: 0 ==, 1 <, 2 <=, 3 >, 4 >=
+pub(super) fn cmp_answer(kind: u8, c: i8) -> bool {
+    match kind {
+        0 => c == 0,
+        1 => c < 0,
+        2 => c <= 0,
+        3 => c > 0,
+        _ => c >= 0,
+    }
+}
+
+macro_rules! string_cmp_harness {
+    ($name:ident, $variant:ident, $kind:expr, $i:expr, $dm:expr, $m1:expr, $m2:expr) => {
+        vm_harness! {
+            #[kani::unwind(9)]
+            fn $name() {
+                let (od, o1, o2) = (OFF_DEST, OFF_R1, OFF_R2);
+                let mut t = mk_thread(
+                    vec![Instr::$variant(enc($dm, od), enc($m1, o1), enc($m2, o2)), Instr::Stop],
+                    vec![], vec![],
+                );
+                let (ba, bb) = (sym_ascii3(), sym_ascii3());
+                let la: usize = kani::any();
+                let lb: usize = kani::any();
+                kani::assume(la <= 3 && lb <= 3);
+                let va = mk_string(&mut t, ba, la);
+                let vb = mk_string(&mut t, bb, lb);
+                push_frame(&mut t, ValueTag::Int);
+                // the progress index is concrete per harness ($i = 0: entry with operands on the
+                // stack; $i >= 1: in flight).  A symbolic index ran CBMC out of memory (measured).
+                let i: usize = $i;
+                if i == 0 {
+                    if $m1 == O { t.value_stack[slot(o1)] = va; }
+                    if $m2 == O { t.value_stack[slot(o2)] = vb; }
+                    if $m1 == T { t.value_stack.push(va); }
+                    if $m2 == T { t.value_stack.push(vb); }
+                } else {
+                    kani::assume(i <= la && i <= lb);
+                    kani::assume(prefix_equal(ba, bb, i));
+                    t.string_operand1 = va;
+                    t.string_operand2 = vb;
+                    t.string_op_index1 = i;
+                }
+                let mut model = t.value_stack.clone();
+                if i == 0 {
+                    let _ = fetch(&mut model, $m2, o2);
+                    let _ = fetch(&mut model, $m1, o1);
+                }
+                t.pc.0 = 0;
+                let cont = t.step();
+                assert!(cont && t.error.is_none(), "string comparison never fails");
+                if t.pc.0 == 1 {
+                    // finished: reference answer on the whole strings
+                    let expect = cmp_answer($kind, lex_cmp(ba, la, bb, lb));
+                    put(&mut model, $dm, od, Value::from(expect));
+                    assert!(same_stack(&t.value_stack, &model), "result is the lexicographic byte-order answer");
+                    assert!(t.string_op_index1 == 0, "progress index reset for the next string operation");
+                    kani::cover!(expect, "req: finished with true");
+                    kani::cover!(!expect, "req: finished with false");
+                } else {
+                    // in flight: one more equal byte consumed, nothing else changed
+                    assert!(t.pc.0 == 0, "pc rewound to re-execute the instruction");
+                    assert!(t.string_op_index1 == i + 1, "advanced by exactly one byte");
+                    assert!(i + 1 <= la && i + 1 <= lb && prefix_equal(ba, bb, i + 1), "invariant re-established");
+                    assert!(same_stack(&t.value_stack, &model), "operand stack untouched while in flight");
+                    assert!(t.string_operand1.0 == va.0 && t.string_operand2.0 == vb.0
+                        && t.string_operand1.1 == ValueTag::String && t.string_operand2.1 == ValueTag::String,
+                        "operands parked in the thread (GC roots)");
+                    kani::cover!(true, "req: continues");
+                }
+                std::mem::forget(t);
+            }
+        }
+    };
+}
+
+string_cmp_harness!(c17_eq_entry, EqualString, 0, 0, T, T, T);
+string_cmp_harness!(c17_eq_resume1, EqualString, 0, 1, T, T, T);
+string_cmp_harness!(c17_eq_resume2, EqualString, 0, 2, T, T, T);
+string_cmp_harness!(c17_eq_resume3, EqualString, 0, 3, T, T, T);
+string_cmp_harness!(c17_lt_entry, LessThanString, 1, 0, T, T, T);
+string_cmp_harness!(c17_lt_resume1, LessThanString, 1, 1, T, T, T);
+string_cmp_harness!(c17_lt_resume2, LessThanString, 1, 2, T, T, T);
+string_cmp_harness!(c17_lt_resume3, LessThanString, 1, 3, T, T, T);
+string_cmp_harness!(c17_le_entry, LessThanOrEqualString, 2, 0, T, T, T);
+string_cmp_harness!(c17_le_resume1, LessThanOrEqualString, 2, 1, T, T, T);
+string_cmp_harness!(c17_le_resume2, LessThanOrEqualString, 2, 2, T, T, T);
+string_cmp_harness!(c17_le_resume3, LessThanOrEqualString, 2, 3, T, T, T);
+string_cmp_harness!(c17_gt_entry, GreaterThanString, 3, 0, T, T, T);
+string_cmp_harness!(c17_gt_resume1, GreaterThanString, 3, 1, T, T, T);
+string_cmp_harness!(c17_gt_resume2, GreaterThanString, 3, 2, T, T, T);
+string_cmp_harness!(c17_gt_resume3, GreaterThanString, 3, 3, T, T, T);
+string_cmp_harness!(c17_ge_entry, GreaterThanOrEqualString, 4, 0, T, T, T);
+string_cmp_harness!(c17_ge_resume1, GreaterThanOrEqualString, 4, 1, T, T, T);
+string_cmp_harness!(c17_ge_resume2, GreaterThanOrEqualString, 4, 2, T, T, T);
+string_cmp_harness!(c17_ge_resume3, GreaterThanOrEqualString, 4, 3, T, T, T);
+string_cmp_harness!(c17_lt_entry_ooo, LessThanString, 1, 0, O, O, O);
+string_cmp_harness!(c17_eq_resume2_odest, EqualString, 0, 2, O, T, T);
+
+// ---- concatenation ----
+pub(super) fn concat_byte(a: [u8; 3], la: usize, b: [u8; 3], lb: usize, k: usize) -> u8 {
+    if k < la { a[k] } else { b[k - la] }
+}
+
+macro_rules! concat_harness {
+    ($name:ident, $entry:expr, $dm:expr) => {
+        vm_harness! {
+            #[kani::unwind(9)]
+            fn $name() {
+                let od = OFF_DEST;
+                let mut t = mk_thread(
+                    vec![Instr::ConcatStrings(enc($dm, od), enc(T, 0), enc(T, 0)), Instr::Stop],
+                    vec![], vec![],
+                );
+                let (ba, bb) = (sym_ascii3(), sym_ascii3());
+                let la: usize = kani::any();
+                let lb: usize = kani::any();
+                kani::assume(la <= 3 && lb <= 3);
+                let va = mk_string(&mut t, ba, la);
+                let vb = mk_string(&mut t, bb, lb);
+                push_frame(&mut t, ValueTag::Int);
+                let (i1, i2): (usize, usize);
+                if $entry {
+                    i1 = 0;
+                    i2 = 0;
+                    t.value_stack.push(va);
+                    t.value_stack.push(vb);
+                } else {
+                    i1 = kani::any();
+                    i2 = kani::any();
+                    kani::assume(i1 <= la && i2 <= lb && (i1 > 0 || i2 > 0));
+                    kani::assume(i2 == 0 || i1 == la);
+                    t.string_operand1 = va;
+                    t.string_operand2 = vb;
+                    t.string_op_index1 = i1;
+                    t.string_op_index2 = i2;
+                    let mut builder: Vec<u8> = Vec::with_capacity(6);
+                    let mut k = 0;
+                    while k < 6 {
+                        if k < i1 + i2 {
+                            builder.push(concat_byte(ba, la, bb, lb, k));
+                        }
+                        k += 1;
+                    }
+                    t.concat_string_builder = builder;
+                }
+                let mut model = t.value_stack.clone();
+                if $entry {
+                    model.pop();
+                    model.pop();
+                }
+                let heap_before = t.heap_list.len();
+                t.pc.0 = 0;
+                let cont = t.step();
+                assert!(cont && t.error.is_none(), "concatenation never fails");
+                if t.pc.0 == 1 {
+                    assert!(i1 == la && i2 == lb, "finishes only when every byte was copied");
+                    assert!(t.string_op_index1 == 0 && t.string_op_index2 == 0, "progress indices reset");
+                    assert!(t.heap_list.len() == heap_before + 1, "exactly one new string object");
+                    let r = if $dm == T { t.value_stack[t.value_stack.len() - 1] } else { t.value_stack[slot(od)] };
+                    assert!(r.1 == ValueTag::String);
+                    let s = r.view_string(&t).as_bytes();
+                    assert!(s.len() == la + lb, "length of the concatenation");
+                    let mut k = 0;
+                    while k < 6 {
+                        if k < la + lb {
+                            assert!(s[k] == concat_byte(ba, la, bb, lb, k), "byte-exact concatenation");
+                        }
+                        k += 1;
+                    }
+                    put(&mut model, $dm, od, r);
+                    assert!(same_stack(&t.value_stack, &model), "exactly one result stored");
+                    kani::cover!(la + lb > 0, "req: finished non-empty");
+                    kani::cover!(la + lb == 0, "info: finished empty");
+                } else {
+                    assert!(t.pc.0 == 0, "pc rewound");
+                    assert!(same_stack(&t.value_stack, &model), "operand stack untouched while in flight");
+                    let (n1, n2) = (t.string_op_index1, t.string_op_index2);
+                    assert!((n1 == i1 + 1 && n2 == i2) || (n1 == i1 && n2 == i2 + 1), "one byte of progress");
+                    assert!(n1 <= la && n2 <= lb && (n2 == 0 || n1 == la), "index invariant re-established");
+                    assert!(t.concat_string_builder.len() == n1 + n2, "builder grew by one byte");
+                    let mut k = 0;
+                    while k < 6 {
+                        if k < n1 + n2 {
+                            assert!(t.concat_string_builder[k] == concat_byte(ba, la, bb, lb, k), "builder = a[..i1] ++ b[..i2]");
+                        }
+                        k += 1;
+                    }
+                    assert!(t.string_operand1.0 == va.0 && t.string_operand2.0 == vb.0, "operands parked in the thread");
+                    kani::cover!(true, "req: continues");
+                }
+                std::mem::forget(t);
+            }
+        }
+    };
+}
+concat_harness!(c17_concat_entry, true, T);
+concat_harness!(c17_concat_resume, false, T);
+concat_harness!(c17_concat_resume_odest, false, O);
